@@ -36,7 +36,8 @@ CHECKS: dict[str, dict[str, str]] = {
                  "(both arms) and 7 other curves x 3 hash functions, and the verdicts of verify_ on boundary (x, r, s); on toy prime-order groups "
                  "TLC computes the complete acceptance table over every (x, r, s) incl. r = p, s = n and validates recorded batch verdicts with the "
                  "coefficient vector existentially quantified (a TRUE for a batch with one bad member has no explanation); real-size batches up to "
-                 "the Bos-Coster threshold incl. cancelling pairs must equal the conjunction of single verifications."),
+                 "the Bos-Coster threshold incl. cancelling pairs and members repeated under another message must equal the conjunction of single verifications; keys that are "
+                 "no field element (wider than the field's octets, negative) answer False on both arms."),
         "technique": "TLA+ BIP340 specification; TLC-generated acceptance tables replayed into btclib; trace validation with an existentially quantified batch coefficient",
         "design_ref": "DESIGN.md section 4 C03",
     },
@@ -45,7 +46,8 @@ CHECKS: dict[str, dict[str, str]] = {
                  "(entry point, argument) pairs covering every dual-path API -- valid arguments and each argument malformed one way -- are called "
                  "with the bindings serving, switched off, and along random histories with flips in between (objects built on one arm used on the "
                  "other); TLC validates the recorded trace against PurityTrace, where F is not logged: the trace is accepted iff one F explains "
-                 "the value digest or exception class seen on both arms."),
+                 "the value digest or exception class seen on both arms. The paired calls include every leaf version of a control block, both parities of a taproot input's key "
+                 "and every spelling of octets (bytes, bytearray, memoryview, hex)."),
         "technique": "TLA+ backend-independence model; paired-arm call traces validated by TLC with the result function existentially quantified",
         "design_ref": "DESIGN.md section 4 C04",
     },
@@ -54,7 +56,9 @@ CHECKS: dict[str, dict[str, str]] = {
                  "alphabet up to a length (WireModel) and the same strings are replayed into btclib's parsers; for every one of the ~55 classes "
                  "with a parse/serialize pair (found by introspection) valid encodings and their structure-aware mutations are recorded with "
                  "check_validity on and off and validated by TLC: grammar verdict, re-serialization, sizes/ids (ten transcribed grammars), the "
-                 "class-independent canonical round-trip law (all classes), JSON round trip, PSBT fixed point keeping every key-value pair."),
+                 "class-independent canonical round-trip law (all classes), JSON round trip, PSBT fixed point keeping every key-value pair; every position of an encoding is "
+                 "bumped by one whatever the sampling budget, length bytes are grown over an inserted zero (DER-style padding), and objects are built at every count "
+                 "boundary (CompactSize widths, each declared limit and one past it) and must parse back."),
         "technique": "TLA+ wire grammars (serializer + parser per class) model-checked with TLC; recorded parse/serialize events validated against them",
         "design_ref": "DESIGN.md section 4 C05",
     },
@@ -76,7 +80,8 @@ CHECKS: dict[str, dict[str, str]] = {
                  "on an abstract instantiation where the IL >= n and zero-child cases are reachable; at real size every extended key recorded from "
                  "rootxprv_from_seed / derive (one call, every split, string spellings, from the public side) / xpub_from_xprv / fingerprint / "
                  "derive_from_account / bip85 over seeds x paths with boundary indexes x BIP32 and SLIP132 versions x both arms is recomputed "
-                 "field by field by TLC (HMAC-SHA512 and secp256k1 written in TLA+)."),
+                 "field by field by TLC (HMAC-SHA512 and secp256k1 written in TLA+), as are the step tweaks of a public derivation at the hardened boundary, the master "
+                 "key as an object under private, public and unknown versions, and BIP85's applications from the BIP's own path table (language numbers of 39')."),
         "technique": "TLA+ BIP32 specification (HMAC-SHA512 + EC in TLA+); TLC model-checks the laws on an abstract group and validates recorded derivations",
         "design_ref": "DESIGN.md section 4 C07",
     },
@@ -91,7 +96,9 @@ CHECKS: dict[str, dict[str, str]] = {
                  "BIP340): it is held to ALL 1228 vectors of script_tests.json on Core's own crediting/spending transactions (1205 identical verdicts, 23 "
                  "lax-DER vectors outside it), the library is run on the same transactions, and CHECKSIG / CHECKMULTISIG spends with real signatures "
                  "in every state (valid, empty, wrong key, wrong order, high s, padded r, hash type 0, hybrid/uncompressed keys; bare, P2SH, P2WSH, "
-                 "P2SH-P2WSH; with and without OP_NOT) under random flag subsets are judged by it."),
+                 "P2SH-P2WSH; with and without OP_NOT) under random flag subsets are judged by it, in stratified cells (signature pattern x NOT x CHECKSIG/CHECKMULTISIG; key form "
+                 "incl. malformed ones x wrapping x STRICTENC/WITNESS_PUBKEYTYPE), with tapscript signature spends (keys of every size class, runs across the validation-weight "
+                 "budget, OP_SUCCESSx and oversized pushes before and after each other)."),
         "technique": "TLA+ transcription of Core's script interpreter validated on Core's vectors; TLC-generated programs replayed into the engine; spends validated as traces",
         "design_ref": "DESIGN.md section 4 C08",
     },
@@ -100,7 +107,7 @@ CHECKS: dict[str, dict[str, str]] = {
                  "say the hash type commits to the field, 810 combinations); digests recorded from every public route -- sig_hash.legacy / "
                  "segwit_v0 / taproot, PrecomputedTxData, from_tx, psbt.ecdsa_sig_hash / taproot_sig_hash and PsbtView on v0 and v2 PSBTs -- "
                  "over generated transactions, script codes and all 256 low hash-type bytes are recomputed by TLC from preimages assembled "
-                 "in TLA+ (Wire + SigHash)."),
+                 "in TLA+ (Wire + SigHash), incl. one-byte annexes and digests asked again after the caller wrote into the transaction a psbt or a view handed it."),
         "technique": "TLA+ transcription of the legacy/BIP143/BIP341 preimages; TLC model-checks the commitment matrix and validates recorded digests",
         "design_ref": "DESIGN.md section 4 C09",
     },
@@ -110,7 +117,8 @@ CHECKS: dict[str, dict[str, str]] = {
                  "engine's. Transactions: every script type the library's signer completes, alone and mixed, x every signature hash type, built as PSBTs, signed, "
                  "finalized and extracted (standard, consensus and no flags); every single change to outputs, sequences, spent amounts, lock time, version, outpoints, "
                  "witness signatures (bytes appended, last byte changed); wsh(miniscript) spends from the library's satisfier; BIP322 simple signatures and proofs of "
-                 "funds (incl. a forged first-input utxo); Bitcoin message signatures for their own and for other addresses."),
+                 "funds (incl. a forged first-input utxo); Bitcoin message signatures for their own and for other addresses, also through a wallet for both spellings of a key; "
+                 "tr() descriptors with script leaves (pk, multi_a, miniscript, a key in two leaves) signed and spent leaf by leaf."),
         "technique": "TLA+ specification of script verification with signature opcodes; the library engine's verdicts on signed and tampered transactions validated as traces by TLC",
         "design_ref": "DESIGN.md section 4 C10",
     },
@@ -131,7 +139,7 @@ CHECKS: dict[str, dict[str, str]] = {
                  "private key opens the output key; output keys, tweaked private keys and control blocks recorded from taproot.output_pubkey / "
                  "output_prvkey / input_script_sig (all key spellings, combs to 40 leaves, both arms) and from tr() descriptors are recomputed by "
                  "TLC; single-bit alterations of control block, script and key, +-32 bytes and foreign paths must not verify, both through "
-                 "check_output_pubkey and through verify_input."),
+                 "check_output_pubkey and through verify_input, incl. combs whose deepest leaf is at depth 128, spends at depths 127/128/129 and leaf scripts around 520 bytes."),
         "technique": "TLA+ BIP341 specification model-checked with TLC on small trees; recorded outputs/control blocks and altered proofs validated as traces",
         "design_ref": "DESIGN.md section 4 C12",
     },
@@ -142,7 +150,8 @@ CHECKS: dict[str, dict[str, str]] = {
                  "both orders, a wrong passphrase and a selection below threshold, and hands the shares to the implementation to recover (specification -> code). "
                  "Recorded from the code and recomputed by TLC: sentences of 12 languages x 5 sizes, single-word substitutions, seeds under NFKD-sensitive passphrases, "
                  "Electrum versions and integers in 12 languages, library-made SLIP39 shares of 4-6 secret lengths (recovery, wrong passphrase, below threshold, a changed "
-                 "word), and BIP85 entropy on every path whose derived key starts with a zero byte."),
+                 "word), thresholds of 16, compatibility-character passphrases, BIP85 entropy on every path whose derived key starts with a zero byte, and mnemonic.dispatch "
+                 "(which schemes claim a sentence in the language named: SeedTypes)."),
         "technique": "TLA+ BIP39/Electrum/SLIP-0039 specifications; TLC-made shares replayed into the implementation; recorded sentences, seeds, recoveries and BIP85 entropy validated as traces",
         "design_ref": "DESIGN.md section 4 C13",
     },
@@ -164,7 +173,9 @@ CHECKS: dict[str, dict[str, str]] = {
                  "(base type B/V/K/W and the z/o/n/d/u modifiers) is specified too and the library's verdict and type are compared on well- and ill-typed expressions. For scenarios of available signatures, "
                  "preimages and (version, lock time, sequence) classes, a satisfaction is produced only when the specification's spending condition holds, and when "
                  "produced the specification's own engine (ScriptSigs) accepts the spend and the witness stays within the predicted items, bytes and executed ops "
-                 "(counted by the specification's machine); the psbt route through miniscript_solver is run with two inputs."),
+                 "(counted by the specification's machine); the psbt route through miniscript_solver is run with two inputs. Every expression is also spent with the lock fields "
+                 "on either side of each of its older()/after(); a dissatisfiable sub-expression sits under everything that dissatisfies it; scripts of 3599/3600/3601 bytes; "
+                 "the tapscript context (x-only keys, multi_a, BIP340 over the tapleaf, many-key expressions against the budget)."),
         "technique": "TLA+ miniscript compilation/condition specification and script engine; recorded compilations and satisfactions validated as traces by TLC",
         "design_ref": "DESIGN.md section 4 C15",
     },
@@ -200,7 +211,8 @@ CHECKS: dict[str, dict[str, str]] = {
                  "and blocks on both sides of every CompactSize boundary (from the wire grammar), input_weight, fee_from_vsize and package_fee, BTC/sat and "
                  "sat/vB/sat/kvB quotes in every spelling under several ambient decimal contexts, Core's dust threshold, build_psbt with the input value swept "
                  "across each decision boundary for every input script type and change script (the estimate re-derived from the specification's per-type spend "
-                 "sizes), and the estimate against what the library's signer and finalizer emit for every signable type and taproot sighash type."),
+                 "sizes), and the estimate against what the library's signer and finalizer emit for every signable type and taproot sighash type; funding across the 252/253-output "
+                 "width; output totals around the money range handed to Tx, Psbt v0/v2 and the builder."),
         "technique": "TLA+ accounting specification model-checked with TLC; recorded size/fee/conversion/funding/signing events validated as traces against it",
         "design_ref": "DESIGN.md section 4 C18",
     },
@@ -212,7 +224,9 @@ CHECKS: dict[str, dict[str, str]] = {
                  "parsers, text decoders, from_dict constructors and verify-style predicates are called on that corpus, on byte-, element- and "
                  "container-level near misses of valid encodings (two levels deep), on type-confused JSON and hostile text; accepted objects are "
                  "handed to every property and argument-free method they offer and to the sighash/engine/size consumers; reader sessions with every "
-                 "cut point are recorded from Message.parse and the other stream parsers. All recorded calls are validated by TLC as traces."),
+                 "cut point are recorded from Message.parse and the other stream parsers; objects parsed from hostile text and accepted PSBTs (incl. copies with boundary scripts) "
+                 "go through every role; any integer where a position is asked for; deep nestings; a valid call with its octets as bytearray / memoryview answers the same. "
+                 "All recorded calls are validated by TLC as traces."),
         "technique": "TLA+ outcome-alphabet and stream-reader specifications; TLC-enumerated fault-injected encodings replayed into the parsers; recorded calls and reader sessions validated as traces with TLC",
         "design_ref": "DESIGN.md section 4 C19",
     },
@@ -220,7 +234,8 @@ CHECKS: dict[str, dict[str, str]] = {
         "text": ("TLC model-checks the NonceLife / SignerLife / WalletLedger / MemoCache machines (invariants and action "
                  "properties, exhaustive on small constants); every behaviour TLC enumerates to a depth (plus -simulate "
                  "walks) is replayed on real btclib objects and the projected state compared after each call; answers of "
-                 "~125 pure calls under cache clears, backend flips and 8 threads are validated by TLC against PurityTrace."),
+                 "~125 pure calls under cache clears, backend flips and 8 threads are validated by TLC against PurityTrace, as is a word-list registry filled by four threads at once; "
+                 "the secret nonce is also held in every spelling (bytes, hex, memoryview)."),
         "technique": "TLA+ life-cycle machines model-checked with TLC; TLC-generated behaviours replayed into btclib; trace validation of call answers",
         "design_ref": "DESIGN.md section 4 C20",
     },
